@@ -28,7 +28,7 @@ def exec_sites(ctx):
     return out
 
 
-def run(ctx):
+def _run(ctx):
     P = ctx.P
     r1 = ctx.inst("C07.R1", "message inventory: only cw20 {Transfer,TransferFrom,Send,Mint,Burn}, pair Swap / decimals update, router self-messages, Wasm Instantiate/Migrate, Bank::Send are ever built; "
                             "every Wasm::Execute matches an allowed (target, payload, funds) template; no other producer of message values", floor=34)
@@ -259,3 +259,15 @@ def run(ctx):
     lemmas.check_transfer_ctor(ctx, lem)
     ctx.assumptions.append("bank module and cw20-base conserve totals and debit only the message sender (standard semantics)")
     ctx.extra["positive_control"] = "zero-expected kinds are exercised by the fixture crate in the thorough tier (see C07 fixture)"
+
+
+def run(ctx):
+    from .. import compose
+    from . import c11
+    _run(ctx)
+    r = ctx.inst("C07.R6", "router side: proceeds go to the caller-named recipient or else the initiating user, never to the relaying token contract or another account (shared with C11.R6, C11.R2)", floor=4)
+    compose.pull(ctx, r, c11, {"C11.R6"}, "C07.R6", key_rx=r":(sender|to|hook-decode|anchor|floor)")
+    compose.pull(ctx, r, c11, {"C11.R2"}, "C07.R6", key_rx=r":(receiver|hop-recipient|anchor|floor)")
+    from . import c05
+    r7 = ctx.inst("C07.R7", "the only mint to an account other than the provider's receiver is the one-off reserved unit, minted to the LP token's own address exactly when the supply is zero (shared with C05.R6, C05.R7)", floor=4)
+    compose.pull(ctx, r7, c05, {"C05.R6", "C05.R7"}, "C07.R7")
